@@ -1,0 +1,102 @@
+//! Construction of the sans-IO ZMTP engine with an explicit configuration.
+
+use std::sync::Arc;
+use std::time::Duration;
+
+use crate::message::Blob;
+use crate::protocol::zmtp::engine::ZmtpEngine;
+use crate::socket::options::{SocketOptions, ZmtpEngineConfig, calculate_required_slot_size};
+
+#[derive(Debug, Clone)]
+pub enum Mech {
+  Null,
+  Plain { username: Option<String>, password: Option<String> },
+  Curve { secret_key: [u8; 32], server_public_key: Option<[u8; 32]> },
+  Noise { secret_key: [u8; 32], remote_public_key: Option<[u8; 32]> },
+}
+
+#[derive(Debug, Clone)]
+pub struct EngineSpec {
+  pub socket_type: String,
+  pub routing_id: Option<Vec<u8>>,
+  pub mechanism: Mech,
+  pub allow_zmtp2: bool,
+  pub heartbeat_ivl: Option<Duration>,
+  pub heartbeat_timeout: Option<Duration>,
+  pub max_msg_size: i64,
+  pub sndbatch_count: usize,
+  pub sndbatch_bytes: usize,
+  pub use_cork: bool,
+  pub use_send_zerocopy: bool,
+}
+
+impl Default for EngineSpec {
+  fn default() -> Self {
+    let d = SocketOptions::default();
+    Self {
+      socket_type: "DEALER".into(),
+      routing_id: None,
+      mechanism: Mech::Null,
+      allow_zmtp2: d.allow_zmtp2,
+      heartbeat_ivl: None,
+      heartbeat_timeout: None,
+      max_msg_size: d.maxmsgsize,
+      sndbatch_count: d.sndbatch_count,
+      sndbatch_bytes: d.sndbatch_bytes,
+      use_cork: false,
+      use_send_zerocopy: false,
+    }
+  }
+}
+
+/// Opaque handle on the crate-private engine configuration.
+#[derive(Clone)]
+pub struct EngineConfig(pub(crate) Arc<ZmtpEngineConfig>);
+
+/// Builds the engine configuration through the same `From<&SocketOptions>` conversion the
+/// transports use, so derived fields (security_enabled, physical batch size) are the real ones.
+pub fn config(spec: &EngineSpec) -> EngineConfig {
+  let mut o = SocketOptions::default();
+  o.socket_type_name = spec.socket_type.clone();
+  o.routing_id = spec.routing_id.clone().map(Blob::from);
+  o.allow_zmtp2 = spec.allow_zmtp2;
+  o.heartbeat_ivl = spec.heartbeat_ivl;
+  o.heartbeat_timeout = spec.heartbeat_timeout;
+  o.maxmsgsize = spec.max_msg_size;
+  o.sndbatch_count = spec.sndbatch_count;
+  o.sndbatch_bytes = spec.sndbatch_bytes;
+  o.tcp_cork = spec.use_cork;
+  o.io_uring.send_zerocopy = spec.use_send_zerocopy;
+  match &spec.mechanism {
+    Mech::Null => {}
+    #[cfg(feature = "plain")]
+    Mech::Plain { username, password } => {
+      o.plain_options.enabled = true;
+      o.plain_options.username = username.clone();
+      o.plain_options.password = password.clone();
+    }
+    #[cfg(feature = "curve")]
+    Mech::Curve { secret_key, server_public_key } => {
+      o.curve_options.enabled = true;
+      o.curve_options.secret_key = Some(*secret_key);
+      o.curve_options.server_public_key = *server_public_key;
+    }
+    #[cfg(feature = "noise_xx")]
+    Mech::Noise { secret_key, remote_public_key } => {
+      o.noise_xx_options.enabled = true;
+      o.noise_xx_options.static_secret_key_bytes = Some(*secret_key);
+      o.noise_xx_options.remote_static_public_key_bytes = *remote_public_key;
+    }
+    #[allow(unreachable_patterns)]
+    _ => panic!("mechanism not compiled in"),
+  }
+  EngineConfig(Arc::new(ZmtpEngineConfig::from(&o)))
+}
+
+pub fn new_engine(is_server: bool, cfg: &EngineConfig) -> ZmtpEngine {
+  ZmtpEngine::new(is_server, cfg.0.clone())
+}
+
+pub fn physical_batch_bytes(sndbatch_bytes: usize, sndbatch_count: usize) -> usize {
+  calculate_required_slot_size(sndbatch_bytes, sndbatch_count)
+}
